@@ -281,8 +281,32 @@ fn run_soak(ctx: &Ctx) -> Report {
     })
 }
 
+/// allocation-free indicators accept any period up to usize::MAX: alpha = 2/(n+1) is then ~1e-19 and
+/// the recursion barely moves, which the reference evaluates exactly
+fn run_huge_periods(ctx: &Ctx) -> Report {
+    let jobs = crate::common::huge_period_params();
+    let seed = ctx.seed;
+    par_run(jobs, ctx.threads, move |p, rep| {
+        if !KINDS.contains(&p.kind) {
+            return;
+        }
+        let mut rng = Rng::derive(seed, 0xC02E, p.p[0] as u64 ^ p.p[1] as u64);
+        let xs = BandGen::new(BAND_REGIMES[rng.below(BAND_REGIMES.len())], 1.0, rng.u64()).take(300);
+        let inputs: Vec<In> = xs.iter().map(|x| In::S(*x)).collect();
+        run_stream(rep, "C02", "c02", p, &inputs, usize::MAX, 1, &judge);
+        let bars = BarGen::new(BAR_STYLES[rng.below(BAR_STYLES.len())], 1.0, rng.u64()).take(300);
+        let binputs: Vec<In> = bars.iter().map(|b| In::B(*b)).collect();
+        run_stream(rep, "C02", "c02", p, &binputs, usize::MAX, 1, &judge);
+        rep.count("huge_period_streams");
+        rep.distinct_by_construction += 2;
+    })
+}
+
 pub fn run(ctx: &Ctx) -> Report {
     let mut rep = Report::new();
+    if ctx.phase_enabled("huge") {
+        rep.merge(run_huge_periods(ctx));
+    }
     if ctx.phase_enabled("soak") {
         rep.merge(run_soak(ctx));
     }
